@@ -17,6 +17,9 @@ import random
 STRVARS = ["os_name", "sys_platform", "platform_machine", "platform_system", "implementation_name",
            "platform_python_implementation"]
 STRLIT = ["linux", "linux2", "lin", "win32", "win", "darwin", "nt", "posix", "", "x86_64", "arm64", "cpython", "pypy"]
+# literals a renderer / tokenizer can mangle: runs of blanks, tabs, leading/trailing blanks, keywords, parentheses,
+# the other quote character, '#' (real platform_version strings look like this: "#1 SMP Wed Feb  1 12:00:00 UTC 2023")
+HOSTILE_STRLIT = ["Feb  1", "a\tb", " lead", "trail ", "x and y", "(x or y)", "it's", "#1 SMP  PREEMPT", "a  b  c"]
 PYV = ["2.7", "3.0", "3.1", "3.6", "3.7", "3.8", "3.9", "3.10", "3.11", "3.12"]
 PYV1 = ["3", "2", "3.8.0", "3.10.0"]  # other spellings of python_version values: bare major, X.Y.0
 PYFV = ["2.7", "2.7.18", "3.0", "3.1.5", "3.6", "3.6.0", "3.6.2", "3.7", "3.7.0", "3.7.9", "3.8.0", "3.8.1", "3.9",
@@ -59,6 +62,8 @@ def atom(rnd: random.Random, cfg: Cfg, strvars=None, strlit=None) -> str:
         var = rnd.choice(strvars)
         op = rnd.choice(["==", "!=", "in", "not in"] if cfg.strin else ["==", "!="])
         lit = rnd.choice(strlit)
+        if rnd.random() < 0.06:
+            lit = rnd.choice(HOSTILE_STRLIT)
         if op in ("==", "!=") and cfg.reversed_ok and rnd.random() < 0.2:
             return f"{q(lit)} {op} {var}"
         if op in ("in", "not in") and cfg.rev_in and rnd.random() < 0.5:
